@@ -67,7 +67,7 @@ def expected(game, lang, comps):
     return "ok " + L(d + "/" + mk[1] + name)
 
 
-NAMES = ["a", "dir name", "x.y", "@E", ".hidden", "日本", " ", "e_f", "...", "GameData.bin.lz"]
+NAMES = ["a", "dir name", "x.y", "@E", ".hidden", "日本", " ", "e_f", "...", "GameData.bin.lz", "b\\s #%."]
 
 
 class C14(PropertyCheck):
